@@ -15,8 +15,10 @@ CLAIMED = {
                 "shachain/*.go on every run by byte-exact differential execution with a Gallina SHA-256 (incl. far "
                 "positions via the codec and a per-bucket tamper sweep) plus independent hashlib predicates on the "
                 "implementation trace. The release-rule half (secrets released only when a newer commitment is durable, "
-                "no gaps/repeats) is decided on real channels by the release_rule predicate of the C02/C03 checks and by "
-                "C02_revoke_advances_tail / C02_tail_height_monotone on the channel model.",
+                "no gaps/repeats) is decided by a channel stage of this same check: seeded schedules with reloads, "
+                "reconnects and stale-instance side writers on two real LightningChannels, judged by the release_rule / "
+                "reload_consistent / side_harmless predicates and tied to C02_revoke_advances_tail / "
+                "C02_tail_height_monotone / C02_restore_keeps_tail on the channel model.",
         "note": "Trusted: Coq kernel, harness, python driver, Gallina SHA-256 (tested vs crypto/sha256 each run). The "
                 "2^48-th insert (Go array index 48) is outside the guard."
                 "",
@@ -239,7 +241,7 @@ CLAIMED["C08"] = {
             "credits + fees. Tie: trace recogniser (vm_compute, SHA-256) over events observed on the real three-hop "
             "fixture (wire interceptors, HtlcNotifier, CircuitMap proxy) under SEEDED FAULT INJECTION on the real code "
             "(link stop/start with channel_reestablish, switch restart on the same DB, message loss followed by "
-            "reconnect, delays, channel down time) plus two directed scenarios in every run; model-independent predicate "
+            "reconnect, delays, channel down time) plus four directed scenarios in every run; model-independent predicate "
             "on the real wire trace (preimage provenance, reconnect-tolerant fail-back lock-in, no late or duplicate "
             "outgoing HTLC, stable forwarding-package references) and on the quiescent end state of all four channel "
             "ends (balances, fees, circuits, invoices). Two genuine defects found by this check were repaired in /repo "
